@@ -2,6 +2,8 @@ import Ptn.C07.Core
 import Ptn.C06.Props
 import Ptn.C07.Gauge
 import Ptn.C07.Pair
+import Ptn.C07.RootEdge
+import Ptn.C07.PairConj
 import Ptn.Common.AnalysisExp
 /-! Property theorems for C07, part 2 (Mathlib); the combinatorial theorems are in `Core.lean`. -/
 namespace Ptn.C07
@@ -276,6 +278,101 @@ theorem two_site_update_pair_canon_partial {R : Type} [CommSemiring R] (dim : Na
 tree re-rooted at `1` is `1 → 0`, so `b = 0` is the only child: `k1 = k2 = kb = []` -/
 example : reroot 1 [] (RTree.node 0 [.node 1 []]) = some (.node 1 [.node 0 []]) ∧
     (RTree.node 1 [.node 0 []]).kids = [] ++ RTree.node 0 [] :: [] := ⟨by rfl, by rfl⟩
+
+/-- **Before every two-site update `two a b` of a two-site TDVP step (truncation disabled): `b` IS a child of the
+root of the tree re-rooted at `a`, the doubled tree around the MERGED PAIR is canonical in index form and the norm
+network has the value of the two tensors of the pair alone** (builder B61; removes item (1) of
+`two_site_update_pair_canon_partial`).  Run hypotheses as in `two_site_update_kids_canon_partial`: only the per-split
+contracts of the run (`VRun`: the factor left at `a` is an isometry toward the fresh bond and the factorisation is
+exact, i.e. truncation disabled - the setting of this property's conservation statement) and the truth of the record
+of the initial network.  `r` = `t` re-rooted at `a`: well-formed, root `a`, and - because `a`, `b` are neighbours
+(`Ptn.C07.reroot_adj_child`: an edge at the root of a well-formed tree is a child of the root) - its child list
+decomposes as `k1 ++ node b kb :: k2`.  For this decomposition the merged family `Ptn.Ein.pair_merged` (children of `a`
+other than `b`, then the children of `b`) satisfies `Kids.Canon`, has pairwise distinct labels, and the norm network
+equals the network of `T_a · conj T_a · T_b · conj T_b` summed over the shared bond and one common index per other leg
+of the pair: the norm of the merged two-site tensor. -/
+theorem two_site_update_pair_canon {R : Type} [CommSemiring R] (dim : Nat → Nat) (cj : R → R)
+    (t : RTree) (hwf : t.WF) (hk : t.kids ≠ []) :
+    ∃ u s evs, updatePath t = some u ∧ u.head? = some s ∧ eventsTwoSite t = some evs ∧
+      ∀ (dir : Rec) (N0 : VNet R), CanonAt t dir s → N0.WF → BondDims dim N0 → (∀ n ∈ ids t, n ∈ N0.ids) →
+        GaugeInv dim cj N0 dir →
+      ∀ (k : Nat) (p q : List DEv) (a b : Nat) (N : VNet R),
+        (List.replicate k evs).flatten = p ++ DEv.two a b :: q → VRun dim cj N0 p N →
+        Adj t a b ∧ N.WF ∧ N.ids = N0.ids ∧
+        ∃ r : RTree, reroot a [] t = some r ∧ r.rid = a ∧ r.WF ∧ (ids r).Perm (ids t) ∧
+          ∃ up dn : Nat → Nat, (∀ e ∈ edges r, EdgeOK dim cj N up dn e.1 e.2) ∧
+            ∃ k1 kb k2 : List RTree, r.kids = k1 ++ RTree.node b kb :: k2 ∧
+              (pair_merged (kidsOf cj N up dn k1) (kidsOf cj N up dn k2) (kidsOf cj N up dn kb)).Canon (ddim dim) ∧
+              (pair_merged (kidsOf cj N up dn k1) (kidsOf cj N up dn k2) (kidsOf cj N up dn kb)).labels.Nodup ∧
+              ∀ σ, netValue (ddim dim) (centreOf cj N up dn r).normBinds ((ids t).flatMap (nodeLeaves cj N)) σ =
+                netValue (ddim dim)
+                  ((physOf N a (dnLegs dn r.kids) ++ (physOf N b (up b :: dnLegs dn kb) ++
+                      [(DL.ket (dn b), DL.ket (up b)), (DL.bra (dn b), DL.bra (up b))])) ++
+                    (pair_merged (kidsOf cj N up dn k1) (kidsOf cj N up dn k2) (kidsOf cj N up dn kb)).pairs)
+                  [ketT (N.tens a), braT cj (N.tens a), ketT (N.tens b), braT cj (N.tens b)] σ := by
+  obtain ⟨u, s, evs, hu, hs, hev, hall⟩ := two_site_update_pair_canon_partial dim cj t hwf hk
+  refine ⟨u, s, evs, hu, hs, hev, ?_⟩
+  intro dir N0 hc hwf0 hbd hids hinv k p q a b N hsplit hr
+  obtain ⟨hab, h1, h2, r, hr1, hr2, hr3, up, dn, g1, g⟩ :=
+    hall dir N0 hc hwf0 hbd hids hinv k p q a b N hsplit hr
+  obtain ⟨hrwf, _, k1, kb, k2, hsp⟩ := reroot_adj_child hwf hab hr1
+  exact ⟨hab, h1, h2, r, hr1, hr2, hrwf, hr3, up, dn, g1, k1, kb, k2, hsp, g k1 kb k2 hsp⟩
+
+/-- the hypotheses are satisfiable: the instance of the examples above (tree `0 → 1`, integer network
+`Ptn.C03.isoNet'`, first event `two 1 0`); `0 - 1` is an edge, the tree re-rooted at `1` is `1 → 0` and its child
+list is `[] ++ node 0 [] :: []` -/
+example :
+    let t : RTree := .node 0 [.node 1 []]
+    t.WF ∧ t.kids ≠ [] ∧ eventsTwoSite t = some [.two 1 0, .two 0 1] ∧ Adj t 1 0 ∧
+      reroot 1 [] t = some (.node 1 [.node 0 []]) ∧
+      (RTree.node 1 [.node 0 []]).kids = [] ++ RTree.node 0 [] :: [] := by
+  refine ⟨by decide, by decide, by decide, by decide, by rfl, by rfl⟩
+
+open Matrix NormedSpace in
+/-- **Every two-site update of a two-site TDVP time step (truncation disabled) conserves the norm** - no
+canonical-form hypothesis other than the per-split contracts of the run (`VRun`) and the truth of the record of the
+INITIAL network.  Over the complex numbers with conjugation `star`: before every event `two a b` the tree `r` = `t`
+re-rooted at `a` has `b` among the children of its root (`r.kids = k1 ++ node b kb :: k2`), the doubled tree
+`M = pair_merged …` around the merged pair is built from the current network `N`, the embedding
+`E = siteEmbedding (ddim dim) M P = envMatrix ⊗ 1_P` is BUILT from it (`P`: the open legs of `a` and `b`), and for
+every Hermitian `H` the update `φ ↦ exp(-i τ EᴴHE) φ` of the merged two-site tensor conserves `|Eφ|²`
+(`two_site_update_pair_canon` + `pairConj_merged_kidsOf` + `two_site_update_conserves_norm_of_canonical`).
+Scope: `VStep.two` carries an exact factorisation over the fresh bond - a truncating SVD is outside (it does not
+conserve the norm). -/
+theorem tdvp_two_site_update_conserves_norm (dim : Nat → Nat) (t : RTree) (hwf : t.WF) (hk : t.kids ≠ []) :
+    ∃ u s evs, updatePath t = some u ∧ u.head? = some s ∧ eventsTwoSite t = some evs ∧
+      ∀ (dir : Rec) (N0 : VNet ℂ), CanonAt t dir s → N0.WF → BondDims dim N0 → (∀ n ∈ ids t, n ∈ N0.ids) →
+        GaugeInv dim (star : ℂ → ℂ) N0 dir →
+      ∀ (k : Nat) (p q : List DEv) (a b : Nat) (N : VNet ℂ),
+        (List.replicate k evs).flatten = p ++ DEv.two a b :: q → VRun dim (star : ℂ → ℂ) N0 p N →
+        Adj t a b ∧
+        ∃ r : RTree, reroot a [] t = some r ∧ r.rid = a ∧
+          ∃ up dn : Nat → Nat, (∀ e ∈ edges r, EdgeOK dim (star : ℂ → ℂ) N up dn e.1 e.2) ∧
+            ∃ k1 kb k2 : List RTree, r.kids = k1 ++ RTree.node b kb :: k2 ∧
+            ∃ M : Kids DL ℂ, M = pair_merged (kidsOf (star : ℂ → ℂ) N up dn k1) (kidsOf (star : ℂ → ℂ) N up dn k2)
+                (kidsOf (star : ℂ → ℂ) N up dn kb) ∧
+              ∀ (P : Type) [Fintype P] [DecidableEq P]
+                (H : Matrix (Idx (ddim dim) M.physAll × P) (Idx (ddim dim) M.physAll × P) ℂ),
+                H.conjTranspose = H → ∀ (τ : ℝ) (φ : Idx (ddim dim) M.ups × P → ℂ),
+                let E := Ptn.C06.siteEmbedding (ddim dim) M P
+                star (E.mulVec ((exp ((-Complex.I * (τ : ℂ)) • (E.conjTranspose * H * E))).mulVec φ)) ⬝ᵥ
+                    (E.mulVec ((exp ((-Complex.I * (τ : ℂ)) • (E.conjTranspose * H * E))).mulVec φ))
+                  = star (E.mulVec φ) ⬝ᵥ (E.mulVec φ) := by
+  obtain ⟨u, s, evs, hu, hs, hev, hall⟩ := two_site_update_pair_canon dim (star : ℂ → ℂ) t hwf hk
+  refine ⟨u, s, evs, hu, hs, hev, ?_⟩
+  intro dir N0 hc hwf0 hbd hids hinv k p q a b N hsplit hr
+  obtain ⟨hab, _, _, r, hr1, hr2, _, _, up, dn, g1, k1, kb, k2, hsp, hC, hN, _⟩ :=
+    hall dir N0 hc hwf0 hbd hids hinv k p q a b N hsplit hr
+  refine ⟨hab, r, hr1, hr2, up, dn, g1, k1, kb, k2, hsp, _, rfl, ?_⟩
+  intro P _ _ H hH τ φ
+  exact two_site_update_conserves_norm_of_canonical (ddim dim) dswap dswap_injective (ddim_dswap dim)
+    _ hC hN (pairConj_merged_kidsOf N up dn k1 k2 kb) P H hH τ φ
+
+/-- the run hypotheses are those of `two_site_update_pair_canon` (satisfiable: example above); the relabelling and
+the Hermitian operator: ket copy ↔ bra copy is injective and keeps dimensions, the identity matrix is Hermitian -/
+example (dim : Nat → Nat) : Function.Injective dswap ∧ (∀ l, ddim dim (dswap l) = ddim dim l) ∧
+    ((1 : Matrix (Fin 2 × Fin 3) (Fin 2 × Fin 3) ℂ)).conjTranspose = 1 :=
+  ⟨dswap_injective, ddim_dswap dim, Matrix.conjTranspose_one⟩
 
 end siteCanon
 
